@@ -152,7 +152,7 @@ Definition annexf_ok (j : json) : bool := ok_ds j.
     validator agrees with the harness' (Rust) validator on the real output *)
 Definition check_case (c : jcase) : bool :=
   match c with
-  | CaseRT X d out back annexf _ conf =>
+  | CaseRT X d out back annexf _ conf _ =>
       Bool.eqb (conf_dset X d) conf &&
       outcome_eqb json_eqb (ser X d) out &&
       match out with Ok j => Bool.eqb (annexf_ok j) annexf | _ => true end
